@@ -97,7 +97,8 @@ func (s bitmap64) And(provider Provider[uint64]) {
 		s.bitmap.And(typedProvider.bitmap)
 
 	case Duplex[uint64]:
-		s.Each(func(nextValue uint64) bool {
+		// Iterate over a snapshot: removing from the bitmap while iterating it skips values
+		s.Clone().Each(func(nextValue uint64) bool {
 			if !typedProvider.Contains(nextValue) {
 				s.Remove(nextValue)
 			}
@@ -135,7 +136,8 @@ func (s bitmap64) AndNot(provider Provider[uint64]) {
 		s.bitmap.AndNot(typedProvider.bitmap)
 
 	case Duplex[uint64]:
-		s.Each(func(nextValue uint64) bool {
+		// Iterate over a snapshot: removing from the bitmap while iterating it skips values
+		s.Clone().Each(func(nextValue uint64) bool {
 			if typedProvider.Contains(nextValue) {
 				s.Remove(nextValue)
 			}
